@@ -124,6 +124,17 @@ func (env *Env) reparse(t px.Type) px.Type {
 	return env.C.ParseType(t.String())
 }
 
+// tsTime: the instant `sec` seconds and `ns` nanoseconds after 0001-01-01T00:00:00Z (time.Time's internal epoch)
+func tsTime(sec, ns int64) time.Time {
+	if sec < MinI+TsEpoch {
+		panic("instant not representable")
+	}
+	return time.Unix(sec-TsEpoch, ns).UTC()
+}
+
+// TsParts is the inverse of tsTime.
+func TsParts(t time.Time) (int64, int64) { return t.Unix() + TsEpoch, int64(t.Nanosecond()) }
+
 func sizeType(lo, hi int64) *types.IntegerType {
 	if lo < 0 {
 		panic("negative size")
@@ -170,6 +181,11 @@ func (env *Env) ctor(t Ty, parsed bool) px.Type {
 			panic("min > max")
 		}
 		return types.NewTimespanType(time.Duration(t.Lo), time.Duration(t.Hi))
+	case "tstamp":
+		if t.Lo > t.Hi || t.Lo == t.Hi && t.NLo > t.NHi {
+			panic("min > max")
+		}
+		return types.NewTimestampType(tsTime(t.Lo, t.NLo), tsTime(t.Hi, t.NHi))
 	case "strsz":
 		return types.NewStringType(sizeType(t.Lo, t.Hi), "")
 	case "strval":
@@ -294,6 +310,8 @@ func (env *Env) val(v Val) px.Value {
 		return types.WrapBinary([]byte(v.S))
 	case "ts":
 		return types.WrapTimespan(time.Duration(v.I))
+	case "tsv":
+		return types.WrapTimestamp(tsTime(v.I, v.I2))
 	case "a":
 		es := make([]px.Value, len(v.Vs))
 		for i, e := range v.Vs {
